@@ -147,7 +147,7 @@ func c18GenOps(T *Tape, sc *sharedCodecs, task int, n int, fo *c18Focus) []share
 			if sc.frameNames[ci] == "snappy" && !v.SupportsCompression(primitive.CompressionSnappy) {
 				ci = 0
 			}
-			f := GenFrame(T, GenOpts{Version: v, Requests: T.Bool("req", 0.5), Responses: true, MaxBytes: c18MaxBytes(T, fo), BigChance: 0.2, Compressible: T.Bool("compressible", 0.5), HeaderFlags: true}, int16(1+T.Draw("stream", 100)))
+			f := GenFrame(T, GenOpts{Version: v, Requests: T.Bool("req", 0.5), Responses: true, MaxBytes: c18MaxBytes(T, fo), BigChance: 0.2, Compressible: T.Bool("compressible", 0.5), HeaderFlags: true}, DrawStreamId(T, v))
 			if ci != 0 && (T.Bool("compressflag", 0.7) || fo.kind == 1) {
 				markCompressed(T, f)
 			}
